@@ -6,7 +6,7 @@ from core import Case, nlist
 from pyerr import canon_call
 
 PROP = 'C08'
-COQ_TARGETS = ['theories/NpciFacts.vo', 'theories/NpciMsgFacts.vo']
+COQ_TARGETS = ['theories/NpciFacts.vo', 'theories/NpciMsgFacts.vo', 'theories/NpciSound.vo']
 COQ_IMPORTS = 'From Bac Require Import Base Npci.'
 RULE = ('cases: NPDU.encode over expecting-reply x priority 0..3 x DADR {none, station 1/6/255 octets, remote broadcast, global} x '
         'SADR {none, station 1/6/255} x hop {0,1,254,255} x message {none, 0, 0x13, 0x7f, 0x80+vendor, 0xff+vendor} (quick: hop cycled, '
